@@ -19,13 +19,15 @@ EXPECT = {
     'g': ('cell:g', [[1, 2]]),
     'K.meth': ('cell:meth', [[1, 1]]),
     'h': ('cell:h', [[1, 1]]),
+    'sq': ('cell:<lambda>@18', [[0, 1]]),
+    'cube': ('cell:<lambda>@19', [[0, 2]]),
 }
 MOD_EXPECT = {'lpv_mod.py:mf': [[1, 1], [2, 4], [3, 3], [4, 1]], 'lpv_mod.py:mg': [[1, 1]]}
 
 
 def cases(ctx):
     out = []
-    fsets = [[], ['f'], ['g'], ['f', 'g'], ['K.meth'], ['f', 'K.meth', 'h']]
+    fsets = [[], ['f'], ['g'], ['f', 'g'], ['K.meth'], ['f', 'K.meth', 'h'], ['sq', 'cube'], ['cube', 'f', 'sq']]
     msets = [[], ['lpv_mod'], ['lpv_pkg.sub'], ['lpv_mod', 'lpv_pkg.sub']]
     optsets = [[], ['-r'], ['-r', '-s'], ['-r', '-u 1e-3'], ['-s'], ['-r', '-s', '-u 1e-6']]
     kinds = ['none', 'exit', 'kbint', 'error']
@@ -60,7 +62,7 @@ def oracle(c, r):
     want_builtins = 'same' if c['pre_profile'] else 'absent'
     if r['builtins_after'] != want_builtins:
         bad.append({'builtins.profile_after': r['builtins_after'], 'expected': want_builtins})
-    want_names = ['lpv_mod', 'lpv_pkg', 'res', 'res2', 'res3', 'res4'] + (['after'] if kind == 'none' else [])
+    want_names = ['lpv_mod', 'lpv_pkg', 'res', 'res2', 'res3', 'res4', 'res5'] + (['after'] if kind == 'none' else [])
     if sorted(r['new_names']) != sorted(want_names):
         bad.append({'user_namespace_new_names': r['new_names'], 'expected': sorted(want_names)})
     if r['trace_after']:
@@ -79,7 +81,7 @@ def oracle(c, r):
         got = {k: v for k, v in r['timings'].items() if v}
         if got != want:
             bad.append({'statistics': got, 'expected_exactly': want})
-        wantreg = sorted([f for f in c['funcs']] + (['mf', 'mg'] if 'lpv_mod' in c['mods'] else []) + (['pinner'] if 'lpv_pkg.sub' in c['mods'] else []))
+        wantreg = sorted([{'sq': '<lambda>', 'cube': '<lambda>'}.get(f, f) for f in c['funcs']] + (['mf', 'mg'] if 'lpv_mod' in c['mods'] else []) + (['pinner'] if 'lpv_pkg.sub' in c['mods'] else []))
         if sorted(r['registered']) != wantreg:
             bad.append({'registered': r['registered'], 'named': wantreg})
         if r['enable_count_after'] != 0:
